@@ -904,6 +904,10 @@ func concatParts(v ssa.Value, depth int) ([]ssa.Value, bool) {
 		if k, isK := an.ConstInt(x.Len); isK && k == 0 {
 			return nil, true
 		}
+		// make([]byte, len(a)+len(b), ...) filled by copy(_, a) and copy(_[len(a):], b): the concatenation a ++ b
+		if parts, ok := twoCopies(x, depth); ok {
+			return parts, true
+		}
 		// make([]byte, len(p), ...) filled by copy(_, p): a re-allocated copy of the prefix p
 		if lc, isCall := x.Len.(*ssa.Call); isCall {
 			if b, isB := lc.Common().Value.(*ssa.Builtin); isB && b.Name() == "len" {
@@ -971,4 +975,59 @@ func concatParts(v ssa.Value, depth int) ([]ssa.Value, bool) {
 		}
 	}
 	return []ssa.Value{v}, true
+}
+
+// twoCopies: mk = make([]T, n, ...) with n == len(a)+len(b) (also through a local), copy(mk, a) and
+// copy(mk[len(a):], b): the parts of a followed by the parts of b.
+func twoCopies(mk *ssa.MakeSlice, depth int) ([]ssa.Value, bool) {
+	sum, ok := mk.Len.(*ssa.BinOp)
+	if !ok || sum.Op != token.ADD {
+		return nil, false
+	}
+	lenArg := func(v ssa.Value) ssa.Value {
+		lc, isCall := v.(*ssa.Call)
+		if !isCall {
+			return nil
+		}
+		if b, isB := lc.Common().Value.(*ssa.Builtin); isB && b.Name() == "len" {
+			return lc.Common().Args[0]
+		}
+		return nil
+	}
+	a, b := lenArg(sum.X), lenArg(sum.Y)
+	if a == nil || b == nil {
+		return nil, false
+	}
+	okA, okB := false, false
+	for _, r := range *mk.Referrers() {
+		switch x := r.(type) {
+		case *ssa.Call:
+			if cb, isCB := x.Common().Value.(*ssa.Builtin); isCB && cb.Name() == "copy" && x.Common().Args[0] == ssa.Value(mk) && sameValue(x.Common().Args[1], a) {
+				okA = true
+			}
+		case *ssa.Slice:
+			if x.High != nil || x.Low == nil {
+				continue
+			}
+			if la := lenArg(x.Low); la == nil || !sameValue(la, a) {
+				continue
+			}
+			for _, r2 := range *x.Referrers() {
+				if cp, isCp := r2.(*ssa.Call); isCp {
+					if cb, isCB := cp.Common().Value.(*ssa.Builtin); isCB && cb.Name() == "copy" && cp.Common().Args[0] == ssa.Value(x) && sameValue(cp.Common().Args[1], b) {
+						okB = true
+					}
+				}
+			}
+		}
+	}
+	if !okA || !okB {
+		return nil, false
+	}
+	pa, ok1 := concatParts(a, depth+1)
+	pb, ok2 := concatParts(b, depth+1)
+	if !ok1 || !ok2 {
+		return nil, false
+	}
+	return append(append([]ssa.Value{}, pa...), pb...), true
 }
